@@ -45,6 +45,46 @@ MUTANTS = [
     ("m10-sell-rounds-down", "pams/market.py",
      "            return self.convert_to_tick_level_rounded_upper(price=price)",
      "            return self.convert_to_tick_level_rounded_lower(price=price)", "C19"),
+    ("r01-seller-credited-price-only", "pams/simulator.py",
+     "            sell_agent.cash_amount += price * volume", "            sell_agent.cash_amount += price", "C05"),
+    ("r02-hft-fills-not-applied", "pams/runners/sequential.py",
+     "                            self.simulator._update_agents_for_execution(\n                                execution_logs=logs\n                            )\n",
+     "", "C05"),
+    ("r03-buyer-notified-twice", "pams/runners/sequential.py",
+     "                        agent = self.simulator.id2agent[execution_log.sell_agent_id]",
+     "                        agent = self.simulator.id2agent[execution_log.buy_agent_id]", "C11"),
+    ("r04-normal-cap-off-by-one", "pams/runners/sequential.py",
+     "            if n_orders >= session.max_normal_orders:", "            if n_orders > session.max_normal_orders:", "C09"),
+    ("r05-hft-gate-flipped", "pams/runners/sequential.py",
+     "            if session.high_frequency_submission_rate < self._prng.random():",
+     "            if session.high_frequency_submission_rate > self._prng.random():", "C09"),
+    ("r06-no-round-after-hft-orders", "pams/runners/sequential.py",
+     "                        if session.with_order_execution:\n                            logs = market._execution()",
+     "                        if False:\n                            logs = market._execution()", "C09"),
+    ("r07-executions-logged-twice", "pams/market.py",
+     "        if self.remain_executable_orders():\n            raise AssertionError\n        return logs",
+     "        if self.remain_executable_orders():\n            raise AssertionError\n        if self.logger is not None:\n            self.logger.bulk_write(logs=logs)\n        return logs", "C10"),
+    ("r08-cancel-not-logged", "pams/market.py",
+     "            ttl=cancel.order.ttl,\n        )\n        if self.logger is not None:\n            log.read_and_write(logger=self.logger)",
+     "            ttl=cancel.order.ttl,\n        )", "C10"),
+    ("r09-after-session-hook-time", "pams/simulator.py",
+     "        time: int = session.session_start_time + session.iteration_steps - 1",
+     "        time: int = session.session_start_time + session.iteration_steps", "C13"),
+    ("r10-class-filter-ignored", "pams/simulator.py",
+     "            if not isinstance(check_object, class_requirement):\n                return False",
+     "            if not isinstance(check_object, class_requirement):\n                pass", "C13"),
+    ("r11-index-stepped-first", "pams/simulator.py",
+     "        for market in filter(lambda x: not isinstance(x, IndexMarket), markets):\n            self._update_time_on_market(market=market)\n        for market in filter(lambda x: isinstance(x, IndexMarket), markets):",
+     "        for market in filter(lambda x: isinstance(x, IndexMarket), markets):\n            self._update_time_on_market(market=market)\n        for market in filter(lambda x: not isinstance(x, IndexMarket), markets):", "C06"),
+    ("r12-session-start-not-accumulated", "pams/runners/sequential.py",
+     "            session_start_time += session_setting[\"iterationSteps\"]",
+     "            session_start_time = session_setting[\"iterationSteps\"]", "C06"),
+    ("r13-future-guard-off-by-one", "pams/market.py",
+     "        if time > self.time:\n            raise AssertionError(\"Cannot refer the future parameters\")\n        result = parameters[time]",
+     "        if time > self.time + 1:\n            raise AssertionError(\"Cannot refer the future parameters\")\n        result = parameters[time]", "C06"),
+    ("r14-storage-extension-loses-history", "pams/market.py",
+     "        self._executed_volumes = self._executed_volumes + [\n            0 for _ in range(length - len(self._executed_volumes))\n        ]",
+     "        self._executed_volumes = [0 for _ in range(length)]", "C06"),
     ("m11-mid-not-refreshed-on-cancel", "pams/market.py",
      "        if cancel.placed_at is None:\n            raise AssertionError\n        self._update_market_price()",
      "        if cancel.placed_at is None:\n            raise AssertionError", "C08"),
